@@ -686,3 +686,35 @@ package transaction
 //@   may-panic
 //@   opaque-callee initKeysAndMutations execute asyncPessimisticRollback onCommitted Lock UnLock TxnLatches newTwoPhaseCommitter SetDiskFullOpt SetTxnSource getDetail GetKeys Len IsStale SetCommitTS StartRegion End SpanFromContext WithRPCInterceptor close$1 CancelAggressiveLocking isInternal
 //@   at return assert stopped: defined(committer) && committer != nil && committer == txn.committer ==> committer.ttlManager.state != stateRunning
+
+// ---- C04: the minimum commit timestamp only grows; which transactions may use the protocols that let the prewrite decide ----
+// tryUpdate never lowers the value and ignores writers below the required access level (after the committer has taken the
+// manager over, a late lock response cannot move it); elevating the access level never lowers it either.
+//@ func (*minCommitTsManager) tryUpdate
+//@   prop C04
+//@   ensures mono: m.value >= old(m.value) && (m.value == old(m.value) || m.value == newValue)
+//@   ensures raised: writeAccess >= old(m.requiredWriteAccess) ==> m.value >= newValue
+//@   ensures refused: writeAccess < old(m.requiredWriteAccess) ==> m.value == old(m.value)
+//@   ensures level: m.requiredWriteAccess == old(m.requiredWriteAccess)
+//@ func (*minCommitTsManager) elevateWriteAccess
+//@   prop C04
+//@   ensures level: m.requiredWriteAccess >= old(m.requiredWriteAccess) && m.requiredWriteAccess >= newLevel && result == m.value && m.value == old(m.value)
+// Async commit and one-phase commit are never chosen for a transaction with shared locks, a non-global scope, a commit
+// timestamp upper-bound check (cached tables) or a binlog; one-phase commit is dropped as soon as the prewrite needs more
+// than one batch.
+//@ func (*twoPhaseCommitter) checkOnePC
+//@   prop C04
+//@   may-panic
+//@   opaque-callee GetScope shouldWriteBinlog
+//@   ensures only: result ==> !c.hasSharedLocks && c.txn.commitTSUpperBoundCheck == nil && c.txn.enable1PC
+//@ func (*twoPhaseCommitter) checkAsyncCommit
+//@   prop C04
+//@   may-panic
+//@   opaque-callee GetScope shouldWriteBinlog GetGlobalConfig Len GetKey
+//@   loop 1 invariant l1: 0 <= i
+//@   ensures only: result ==> !c.hasSharedLocks && c.txn.commitTSUpperBoundCheck == nil && c.txn.enableAsyncCommit
+//@ func (*twoPhaseCommitter) checkOnePCFallBack
+//@   prop C04
+//@   inline-callee setOnePC
+//@   ensures fallback: batchCount > 1 && old(c.useOnePC) > 0 ==> (c.useOnePC == 0 || c.useOnePC == old(c.useOnePC))
+//@   ensures never: old(c.useOnePC) == 0 ==> c.useOnePC == 0
